@@ -306,8 +306,8 @@ func (ps *PkgSpec) parseFile(file, data string) error {
 				return errf("bad anchored clause")
 			}
 			head := strings.Fields(rest[:ci])
-			if len(head) != 2 || (head[0] != "call" && head[0] != "assign") {
-				return errf("anchor must be `call NAME[k]` or `assign NAME[k]`")
+			if len(head) != 2 || (head[0] != "call" && head[0] != "assign" && head[0] != "store") {
+				return errf("anchor must be `call NAME[k]`, `assign NAME[k]` or `store NAME[k]`")
 			}
 			an := &Anchored{When: kw, Callee: head[1]}
 			if bi := strings.Index(head[1], "["); bi >= 0 {
@@ -316,6 +316,10 @@ func (ps *PkgSpec) parseFile(file, data string) error {
 			}
 			if head[0] == "assign" {
 				an.Callee = "=" + an.Callee
+			}
+			if head[0] == "store" {
+				// k-th statement `NAME[...] = v` (element or map store through the variable NAME)
+				an.Callee = "[]=" + an.Callee
 			}
 			body := strings.TrimSpace(rest[ci+1:])
 			switch {
